@@ -41,7 +41,7 @@ func runC11(c *Ctx) {
 	for _, ct := range qCtors()[:2] {
 		c.Explore(orderRaceScenario(ct, c.Pick(2, 3)), mc.Options{PreemptBound: c.Pick(2, 3)})
 		// the head gives up (cancellation / timeout) while a release is being handed over
-		c.Explore(giveUpRaceScenario(ct, c.Pick(2, 3), false), mc.Options{PreemptBound: c.Pick(2, 3)})
+		c.Explore(giveUpRaceScenario(ct, 3, false), mc.Options{PreemptBound: c.Pick(2, 3)})
 		c.Explore(giveUpRaceScenario(ct, 2, true), mc.Options{PreemptBound: c.Pick(2, 3)})
 	}
 }
